@@ -1,4 +1,4 @@
-CONSTANTS TitleClean = "rooted" ExtractGuard = "reroot" LinkPolicy = "skip" DeleteValidates = TRUE MaxFull = 3 MaxCore = 5
+CONSTANTS TitleClean = "rooted" ExtractGuard = "reroot" Whiteout = "none" LinkPolicy = "skip" DeleteValidates = TRUE MaxFull = 3 MaxCore = 5
   Eps = {"art", "tar", "lnk", "imp", "lay"}
 CONSTANT WithVerdict = FALSE
 INIT Init
